@@ -441,7 +441,9 @@ class ClauseCtx:
                 if did in snap.env:
                     return self._wrap(snap.env[did], ct)
             old = False
-        if name == 'result' and self.result is not None:
+        if name == 'ret' and self.result is not None:
+            return self.result          # the return value, for functions that have a parameter called `result`
+        if name == 'result' and self.result is not None and 'result' not in self.frame.params and 'result' not in self.names:
             return self.result
         if name in self.names:
             return self.names[name]
